@@ -224,6 +224,7 @@ fn run_c19(col: &mut Col, family: &str, text: &str, meta: Option<&Meta>) {
         }
     }
     let case = || case_json("C19", family, text);
+    col.sample(|| json!({"program": text, "dependency_graph_acyclic": acyclic, "cycle_broken_only_by_delay": cyclic_but_for_delay, "accepted": matches!(part, Part::Ok(_))}));
     match part {
         Part::Ok(g) => {
             if !acyclic {
@@ -713,6 +714,9 @@ fn run_c42(args: &Args, rep: &mut Reporter) {
                 child_checked += 1;
                 let text = &texts[gi].0;
                 let case = || case_json("C42", "random", text);
+                if k == 0 {
+                    col.sample(|| json!({"program": text, "outcome_class": mine.class, "graph_json_hash": mine.graph, "code_hash": mine.code, "compared": "3 in-process builds + 3 child processes"}));
+                }
                 if mine.class != theirs.class {
                     col.violation("C42|dfir|cross-process|outcome-differs", &format!("{} here vs {} in child {k}", mine.class, theirs.class), case);
                 } else if mine.graph != theirs.graph {
